@@ -243,6 +243,14 @@ static void sfd_history(vt::Rng& r) {
   tr.emit("{\"e\":\"Reset\"}");
   tr.histories++;
   scoped_fd* slot[5] = {nullptr, nullptr, nullptr, nullptr, nullptr};
+  // in a quarter of the histories descriptor number 0 is free, so that the first adopted descriptor IS 0
+  // (a valid descriptor like any other)
+  bool zero_free = r.chance(25);
+  int saved0 = -1;
+  if (zero_free) {
+    saved0 = dup(0);
+    __real_close(0);
+  }
   vector<int> real_fds;
   vector<long> adopted;
   int next_logical = 1;
@@ -324,6 +332,10 @@ static void sfd_history(vt::Rng& r) {
   for (int fd : real_fds) {
     tracked.erase(fd);
     __real_close(fd);
+  }
+  if (zero_free && saved0 >= 0) {
+    dup2(saved0, 0);
+    __real_close(saved0);
   }
 }
 
